@@ -58,6 +58,8 @@ type Hooks struct {
 	// Progress is told that a task got past a blocking point (lock taken, value
 	// received ...): the scheduler's deadlock detection starts counting afresh.
 	Progress func()
+	// TaskID identifies the running task for the race detector (R8).
+	TaskID func() int
 }
 
 // H is the installed simulation, nil when none is running.
@@ -325,6 +327,9 @@ func WGAdd(w *sync.WaitGroup, n int) {
 		w.Add(n)
 		return
 	}
+	if n < 0 {
+		release(w) // Done happens before the return of the Wait it unblocks
+	}
 	wgs[w] += n
 	if wgs[w] < 0 {
 		panic("sync: negative WaitGroup counter")
@@ -343,6 +348,7 @@ func WGWait(w *sync.WaitGroup) {
 		h.Blocked()
 	}
 	progress(h)
+	acquire(w)
 }
 
 // ---- channels made by the instrumented package (make(chan T, n) is wrapped
@@ -353,14 +359,24 @@ func WGWait(w *sync.WaitGroup) {
 type offer struct {
 	v     interface{}
 	taken bool
+	vc    vclock // the sender's clock at the send
+	rvc   vclock // the receiver's clock at the receive (an unbuffered receive happens before the send completes)
+}
+
+type qitem struct {
+	v  interface{}
+	vc vclock
 }
 
 type chanState struct {
-	keep   interface{} // keeps the channel alive so that its address is not reused within a case
-	cap    int
-	q      []interface{}
-	offers []*offer
-	closed bool
+	keep    interface{} // keeps the channel alive so that its address is not reused within a case
+	cap     int
+	q       []qitem
+	offers  []*offer
+	closed  bool
+	closeVC vclock
+	recvVCs []vclock // clock of the k-th receive: it happens before the (k+cap)-th send completes
+	nsent   int
 }
 
 var chans = map[uintptr]*chanState{}
@@ -402,9 +418,11 @@ func Send[T any](ch chan<- T, v T) {
 			}
 		}
 		for {
+			release(ch) // a channel the package did not make: ordered both ways with every other operation on it
 			select {
 			case ch <- v:
 				progress(h)
+				acquire(ch)
 				return
 			default:
 				h.Blocked()
@@ -421,11 +439,15 @@ func Send[T any](ch chan<- T, v T) {
 				panic("send on closed channel")
 			}
 		}
-		st.q = append(st.q, v)
+		if k := st.nsent - st.cap; k >= 0 && k < len(st.recvVCs) {
+			joinClock(st.recvVCs[k])
+		}
+		st.nsent++
+		st.q = append(st.q, qitem{v, snapshot()})
 		progress(h)
 		return
 	}
-	o := &offer{v: v}
+	o := &offer{v: v, vc: snapshot()}
 	st.offers = append(st.offers, o)
 	for !o.taken {
 		h.Blocked()
@@ -433,6 +455,7 @@ func Send[T any](ch chan<- T, v T) {
 			panic("send on closed channel")
 		}
 	}
+	joinClock(o.rvc)
 	progress(h)
 }
 
@@ -457,9 +480,11 @@ func Recv2[T any](ch <-chan T) (T, bool) {
 			}
 		}
 		for {
+			release(ch)
 			select {
 			case v, ok := <-ch:
 				progress(h)
+				acquire(ch)
 				return v, ok
 			default:
 				h.Blocked()
@@ -468,17 +493,23 @@ func Recv2[T any](ch <-chan T) (T, bool) {
 	}
 	for {
 		if len(st.q) > 0 {
-			v := st.q[0]
+			it := st.q[0]
 			st.q = st.q[1:]
 			progress(h)
-			if v == nil {
+			joinClock(it.vc)
+			if Race != nil {
+				st.recvVCs = append(st.recvVCs, snapshot())
+			}
+			if it.v == nil {
 				return zero, true
 			}
-			return v.(T), true
+			return it.v.(T), true
 		}
 		if len(st.offers) > 0 {
 			o := st.offers[0]
 			st.offers = st.offers[1:]
+			joinClock(o.vc)
+			o.rvc = snapshot()
 			o.taken = true
 			progress(h)
 			if o.v == nil {
@@ -488,6 +519,7 @@ func Recv2[T any](ch <-chan T) (T, bool) {
 		}
 		if st.closed {
 			progress(h)
+			joinClock(st.closeVC)
 			return zero, false
 		}
 		h.Blocked()
@@ -514,6 +546,7 @@ func Close[C any](c C) {
 				panic("close of closed channel")
 			}
 			st.closed = true
+			st.closeVC = snapshot()
 			return
 		}
 	}
@@ -546,7 +579,7 @@ func Gosched() {
 
 // SimLock replaces X.Lock() / X.RLock(): under the simulator a contended lock
 // hands control to the scheduler instead of blocking the goroutine for real.
-func SimLock(lock func(), try func() bool) {
+func SimLock(lock func(), try func() bool, key ...interface{}) {
 	h := H
 	if h == nil || h.Blocked == nil {
 		lock()
@@ -556,6 +589,9 @@ func SimLock(lock func(), try func() bool) {
 		h.Blocked()
 	}
 	progress(h)
+	if len(key) > 0 {
+		acquire(key[0])
+	}
 }
 
 type onceState struct{ running, done bool }
@@ -583,6 +619,7 @@ func PoolGet(p *sync.Pool) interface{} {
 	if h == nil || h.Blocked == nil {
 		return p.Get()
 	}
+	acquire(p) // (coarser than the language guarantees - per pool, not per object: more order, fewer reports)
 	if l := pools[p]; len(l) > 0 {
 		v := l[len(l)-1]
 		pools[p] = l[:len(l)-1]
@@ -600,6 +637,7 @@ func PoolPut(p *sync.Pool, v interface{}) {
 		p.Put(v)
 		return
 	}
+	release(p)
 	pools[p] = append(pools[p], v)
 }
 
@@ -621,10 +659,14 @@ func SimOnce(o *sync.Once, f func()) {
 	}
 	if st.done {
 		o.Do(f) // returns at once
+		acquire(o)
 		return
 	}
 	st.running = true
-	defer func() { st.running, st.done = false, true }()
+	defer func() {
+		st.running, st.done = false, true
+		release(o) // the completion of f happens before the return of every Do
+	}()
 	o.Do(f)
 }
 
